@@ -525,6 +525,42 @@ fn run_sharded(tier: Tier, only: Option<&str>, n_cases: usize, workers: usize) -
         }
     }
     let mut results: Vec<CaseResult> = vec![];
+    // progress watchdog: a shard whose result file has not grown for STALL seconds is stuck in one
+    // pipeline run (the generator does not terminate on some grammar): kill everything, exit 2
+    let stall = std::time::Duration::from_secs(
+        std::env::var("VERIF_C24_STALL").ok().and_then(|s| s.parse().ok()).unwrap_or(900),
+    );
+    let mut last_progress: Vec<(u64, std::time::Instant)> = children.iter().map(|_| (0, std::time::Instant::now())).collect();
+    loop {
+        let mut all_done = true;
+        let mut stuck: Option<usize> = None;
+        for (i, (c, out)) in children.iter_mut().enumerate() {
+            if let Ok(None) = c.try_wait() {
+                all_done = false;
+                let len = std::fs::metadata(&*out).map(|m| m.len()).unwrap_or(0);
+                if len != last_progress[i].0 {
+                    last_progress[i] = (len, std::time::Instant::now());
+                } else if last_progress[i].1.elapsed() > stall {
+                    stuck = Some(i);
+                }
+            }
+        }
+        if let Some(i) = stuck {
+            let done_lines = std::fs::read_to_string(&children[i].1).map(|t| t.lines().count()).unwrap_or(0);
+            for (c, _) in children.iter_mut() {
+                let _ = c.kill();
+                let _ = c.wait();
+            }
+            harness_error(&format!(
+                "shard {i} made no progress for {} s after {done_lines} cases: a pipeline run does not terminate (not a C24 verdict). Re-run with VERIF_PROGRESS=1 VERIF_KEEP_STDERR=1 VERIF_WORKERS=1 to see the case",
+                stall.as_secs()
+            ));
+        }
+        if all_done {
+            break;
+        }
+        std::thread::sleep(std::time::Duration::from_millis(200));
+    }
     for (mut c, out) in children {
         let st = c.wait();
         if !matches!(st, Ok(s) if s.success()) {
